@@ -13,6 +13,15 @@ renaming); `normalise = postProcess ∘ typed` with the raw bytes attached.  The
 round-trip theorem therefore says: the byte-level parser (level decoders, chain
 walk with 16/32-bit sizes, checksums, level-1 size arithmetic, the OS-9/68k
 quirk) recovers exactly the typed fields, whatever their values and order.
+
+`Fields.trail`: levels 2 and 3 may carry bytes AFTER the chain terminator that the header-length
+field still counts (LHA pads a level-2 header by one byte so that the low byte of its length is
+never 0; the OS-9 archives of the corpus have such a byte).  The parser reads `header_len` bytes,
+walks the chain up to the zero size and never looks at the rest; the bytes stay in `raw` and are
+covered by the common-header CRC.  Any content and any length that the length field can express is
+accepted, also after an empty chain (the first size is then the terminator).  Levels 0 and 1 have no
+such place (level 0: the extended area; level 1: `pad` before the first size, the chain is pulled
+from the input header by header), so `wf` requires `trail = []` there.
 -/
 namespace LhasaV.Spec.HeaderEnc
 open LhasaV LhasaV.Header
@@ -53,6 +62,7 @@ structure Fields where
   area : Area := .none  -- level 0
   pad : Bytes := []     -- level 1: bytes between the OS type and the first extended-header size
   exts : List Ext := [] -- levels 1–3
+  trail : Bytes := []   -- levels 2/3: bytes after the chain terminator that the header length still counts
 deriving Repr
 
 def le16 (v : Nat) : Bytes := [UInt8.ofNat (v % 256), UInt8.ofNat (v / 256 % 256)]
@@ -109,12 +119,12 @@ def encodeWith (crc : Nat) (f : Fields) : Bytes :=
       [UInt8.ofNat f.osType] ++ f.pad ++ le16 (firstSize 2 f.exts)
     [UInt8.ofNat body.length, UInt8.ofNat (sumBytes body % 256)] ++ body ++ chain 2 crc f.exts
   else if f.level = 2 then
-    let total := 26 + chainLen 2 f.exts
+    let total := 26 + chainLen 2 f.exts + f.trail.length
     le16 (if f.osType = 0x4b then total - 2 else total) ++ common ++ [UInt8.ofNat f.attr, 2] ++ le16 f.crc ++
-      [UInt8.ofNat f.osType] ++ le16 (firstSize 2 f.exts) ++ chain 2 crc f.exts
+      [UInt8.ofNat f.osType] ++ le16 (firstSize 2 f.exts) ++ chain 2 crc f.exts ++ f.trail
   else
     le16 4 ++ common ++ [UInt8.ofNat f.attr, 3] ++ le16 f.crc ++ [UInt8.ofNat f.osType] ++
-      le32 (32 + chainLen 4 f.exts) ++ le32 (firstSize 4 f.exts) ++ chain 4 crc f.exts
+      le32 (32 + chainLen 4 f.exts + f.trail.length) ++ le32 (firstSize 4 f.exts) ++ chain 4 crc f.exts ++ f.trail
 
 /-- the raw header as the caller sees it: the CRC fields of common headers zeroed -/
 def rawOf (f : Fields) : Bytes := encodeWith 0 f
@@ -201,15 +211,18 @@ def wf (f : Fields) : Bool :=
   decide (f.level ≤ 3) && decide (f.method.length = 5) && decide (f.clen < 2 ^ 32) && decide (f.length < 2 ^ 32) &&
   decide (f.time < 2 ^ 32) && decide (f.attr < 256) && decide (f.crc < 65536) && decide (f.osType < 256) &&
   f.exts.all Ext.wf &&
-  (if f.level = 0 then f.area.wf && decide (22 + f.name.length + f.area.bytes.length ≤ 255) && f.exts.isEmpty && f.pad.isEmpty
+  (if f.level = 0 then f.area.wf && decide (22 + f.name.length + f.area.bytes.length ≤ 255) && f.exts.isEmpty && f.pad.isEmpty &&
+     f.trail.isEmpty
    else if f.level = 1 then
      decide (25 + f.name.length + f.pad.length ≤ 255) && decide (f.clen + chainLen 2 f.exts < 2 ^ 32) &&
-     f.exts.all (fun e => decide (extSize 2 e < 65536)) && (match f.area with | .none => true | _ => false)
+     f.exts.all (fun e => decide (extSize 2 e < 65536)) && (match f.area with | .none => true | _ => false) &&
+     f.trail.isEmpty
    else if f.level = 2 then
-     decide (26 + chainLen 2 f.exts < 65536) && decide (f.osType = 0x4b → 28 ≤ 26 + chainLen 2 f.exts) && f.name.isEmpty && f.pad.isEmpty &&
+     decide (26 + chainLen 2 f.exts + f.trail.length < 65536) &&
+     decide (f.osType = 0x4b → 28 ≤ 26 + chainLen 2 f.exts + f.trail.length) && f.name.isEmpty && f.pad.isEmpty &&
      (match f.area with | .none => true | _ => false)
    else
-     decide (32 + chainLen 4 f.exts ≤ 1048576) && f.name.isEmpty && f.pad.isEmpty &&
+     decide (32 + chainLen 4 f.exts + f.trail.length ≤ 1048576) && f.name.isEmpty && f.pad.isEmpty &&
      (match f.area with | .none => true | _ => false))
 
 end LhasaV.Spec.HeaderEnc
